@@ -84,6 +84,7 @@ CLIENT_IDS = (3, 4)
 SERVER_IDS = (SERVER_BASE, SERVER_BASE + 1)
 TYPES = ('zz_a', 'wl_callback')
 BIND_TYPE = 'zz_b'
+BIND_TYPES = ('zz_b', 'zz_c')       # the same id may be bound to different interfaces over time
 
 PRELUDE = (['get_registry'], ['bind', FACTORY_ID, 'zz_f'])
 
@@ -118,7 +119,8 @@ def enabled(ref, client_ids=CLIENT_IDS, server_ids=SERVER_IDS, types=TYPES, with
     if has_registry:
         for i in client_ids:
             if not ref.live(i):
-                evs.append(['bind', i, BIND_TYPE])
+                for bt in BIND_TYPES:
+                    evs.append(['bind', i, bt])
     if has_factory:
         for i in known:
             evs.append(['ment', i])
@@ -192,6 +194,12 @@ def build(ev, ref, t_us, server_side=False, conn=None, queue=None):
         exp['target'] = ref.label(oid)
         args = [['obj', o.type, i]]
         exp['args'] = [('obj', ref.label(i))]
+    elif k == 'quote':
+        # a received message whose string argument quotes a sent-looking log line of another connection
+        sent, iface, oid, name = False, 'wl_display', 1, 'error'
+        exp['target'] = ref.label(1)
+        args = [['nil'], ['int', 3], ['str', '[1.000] <%s>  -> wl_display@1.sync(new id wl_callback@9' % ev[1]]]
+        exp['args'] = [('nil', None), ('int', None), ('str', None)]
     elif k == 'foreign':
         _, i = ev
         sent, iface, oid, name = True, 'zz_f', FACTORY_ID, 'delete_id'
